@@ -440,18 +440,21 @@ Lemma disconnect_pending m sid ns :
   pending m = [] -> ns_rooms m ns <> None ->
   pending (mgr_disconnect (fst (pre_disconnect m sid ns)) sid ns) = [].
 Proof.
-  intros Hp Hn. unfold pre_disconnect. rewrite Hp. cbn [aget app aset].
-  set (m0 := mkMgr (rooms m) [(ns, [sid])] (callbacks m)).
-  assert (Em : fst (match room_of m ns PNone with
-                    | Some b => (m0, Ok (bd_get b sid)) | None => (m0, Err KeyError) end) = m0)
-    by (destruct (room_of m ns PNone); reflexivity).
-  rewrite Em. unfold mgr_disconnect.
-  assert (En : ns_rooms m0 ns = ns_rooms m ns) by reflexivity. rewrite En.
-  destruct (ns_rooms m ns) as [rm|]; [|congruence].
-  set (m1 := fold_left _ _ m0).
-  assert (Hp1 : pending m1 = [(ns, [sid])]) by (unfold m1; rewrite fold_leave_pending; reflexivity).
-  unfold is_pending. cbn [pending]. rewrite Hp1. cbn [aget]. rewrite !str_eqb_refl. cbn [existsb orb remove_first].
-  rewrite str_eqb_refl. cbn [adel]. rewrite str_eqb_refl. reflexivity.
+  intros Hp Hn.
+  (* whichever table pre_disconnect returns (marked, or untouched when the lookup fails first) *)
+  assert (A : forall m1, rooms m1 = rooms m -> pending m1 = [(ns, [sid])] \/ pending m1 = [] ->
+                         pending (mgr_disconnect m1 sid ns) = []).
+  { intros m1 Hr Hc. unfold mgr_disconnect.
+    assert (En : ns_rooms m1 ns = ns_rooms m ns) by (unfold ns_rooms; rewrite Hr; reflexivity). rewrite En.
+    destruct (ns_rooms m ns) as [rm|]; [|congruence].
+    set (m2 := fold_left _ _ m1).
+    assert (Hp2 : pending m2 = pending m1) by (unfold m2; apply fold_leave_pending).
+    unfold disc_release. unfold is_pending. cbn [pending]. rewrite Hp2. destruct Hc as [Hc|Hc]; rewrite Hc.
+    - cbn [aget]. rewrite !str_eqb_refl. cbn [existsb orb remove_first].
+      rewrite str_eqb_refl. cbn [adel]. rewrite str_eqb_refl. reflexivity.
+    - cbn [aget pending]. reflexivity. }
+  unfold pre_disconnect. rewrite Hp. cbn [aget app aset].
+  destruct (room_of m ns PNone); cbn [fst]; apply A; try reflexivity; first [left; reflexivity | right; exact Hp].
 Qed.
 
 Lemma ns_rooms_of_mem m ns r sid e : mem m ns r sid = Some e -> ns_rooms m ns <> None.
